@@ -58,10 +58,16 @@ impl InstructionGenerator {
         match step {
             Some(s) => {
                 let step_pos = s.pos();
+                // keep the upper bound safe while the step is evaluated
+                // (a function called by the step expression may use C for its own loops)
+                self.push(Instruction::PushAToValueStack, pos);
                 // load step to A
                 self.generate_expression_instructions(s);
                 // A to D (step is in D)
                 self.push(Instruction::CopyAToD, pos);
+                // upper bound back to C
+                self.push(Instruction::PopValueStackIntoA, pos);
+                self.push(Instruction::CopyAToC, pos);
                 // load 0 to B (after the step has been evaluated,
                 // as evaluating an expression may overwrite B)
                 self.push_load(Variant::VInteger(0), pos);
